@@ -29,6 +29,8 @@ func modeClass(pe *gen.PlanEntry) string {
 		return "tree-file"
 	case pe.Kind == "dir" && pe.Entry != nil && pe.Entry.FI != nil && pe.Entry.FI.Mode != 0:
 		return "dir-explicit"
+	case pe.Kind == "dir" && pe.Entry != nil && pe.Entry.Shape == "dir-from-src":
+		return "dir-from-src"
 	case pe.Kind == "dir":
 		return "dir-default"
 	case pe.Ghost:
